@@ -244,29 +244,30 @@ class StmtMixin:
         if s.value is None:
             return [Outcome("next", st)]
         t = self.type_from_annotation(s.annotation)
-        if isinstance(s.value, ast.List) and not s.value.elts and isinstance(t, TList):
-            s.value._elt_hint = t.elt
-        if isinstance(s.value, ast.Dict) and not s.value.keys and isinstance(t, TDict):
-            s.value._hint = t
+        # type hint for empty literals / comprehensions: the sidecar's field declaration wins over the annotation
+        ht = t
+        if isinstance(s.target, ast.Attribute):
+            try:
+                self.spec_mode += 1
+                base = self.ev(s.target.value, st.copy())
+                ft = self.field_type(base.t.cls, self.mangle(s.target.attr)) if isinstance(base.t, TObj) else None
+                if ft is not None:
+                    ht = ft[1]
+            except Exception:
+                pass
+            finally:
+                self.spec_mode -= 1
+        if isinstance(ht, TOpt):
+            ht = ht.inner
+        if isinstance(s.value, ast.List) and not s.value.elts and isinstance(ht, TList):
+            s.value._elt_hint = ht.elt
+        if isinstance(s.value, ast.Dict) and not s.value.keys and isinstance(ht, TDict):
+            s.value._hint = ht
         if (isinstance(s.value, ast.Call) and isinstance(s.value.func, ast.Name) and s.value.func.id == "set"
-                and not s.value.args and isinstance(t, TSet)):
-            s.value._hint = t
-        if isinstance(s.value, ast.ListComp):
-            # element type of the comprehension: the sidecar's field declaration wins over the annotation
-            ht = t
-            if isinstance(s.target, ast.Attribute):
-                try:
-                    self.spec_mode += 1
-                    base = self.ev(s.target.value, st.copy())
-                    ft = self.field_type(base.t.cls, self.mangle(s.target.attr)) if isinstance(base.t, TObj) else None
-                    if ft is not None:
-                        ht = ft[1]
-                except Exception:
-                    pass
-                finally:
-                    self.spec_mode -= 1
-            if isinstance(ht, TList):
-                s.value._elt_hint = ht.elt
+                and not s.value.args and isinstance(ht, TSet)):
+            s.value._hint = ht
+        if isinstance(s.value, ast.ListComp) and isinstance(ht, TList):
+            s.value._elt_hint = ht.elt
         v = self.ev(s.value, st)
         if t is not None and isinstance(s.target, ast.Name) and not isinstance(t, TOpaque):
             try:
@@ -296,6 +297,8 @@ class StmtMixin:
             return self.retype_empty_list(st, v, t.elt)
         if isinstance(t, TOpt) and isinstance(v.t, TList) and isinstance(v.t.elt, TOpaque) and isinstance(t.inner, TList):
             return coerce(self.retype_empty_list(st, v, t.inner.elt), t)
+        if isinstance(v.t, TSet) and isinstance(v.t.elt, TOpaque) and v.t.elt.name == "empty" and isinstance(t, TSet):
+            return self.retype_empty_set(st, v, t)
         if isinstance(v.t, TOpt) and not isinstance(t, (TOpt, TOpaque)) and not self.spec_mode:
             # an Optional value flowing into a slot the sidecar declares non-optional: the declared type is a
             # claim of the contract, so "it is not None here" is an obligation (clause `typing`), not an assumption
@@ -329,7 +332,7 @@ class StmtMixin:
                 self.set_list_content(st, base, th.Upd(seq, i, box(self.coerce_to(st, v, base.t.elt))))
                 return
             if isinstance(base.t, TDict):
-                k = coerce(self.ev(tgt.slice, st), base.t.key)
+                k = self.coerce_to(st, self.ev(tgt.slice, st), base.t.key)
                 self.dict_store(st, base, k, v)
                 return
             raise Unsupported(f"subscript store on {base.t}")
@@ -373,7 +376,7 @@ class StmtMixin:
             if isinstance(tgt, ast.Subscript):
                 base = self.need_value(self.ev(tgt.value, st), st, tgt)
                 if isinstance(base.t, TDict):
-                    k = coerce(self.ev(tgt.slice, st), base.t.key)
+                    k = self.coerce_to(st, self.ev(tgt.slice, st), base.t.key)
                     self.may_raise(st, z3.Not(self.dict_has(st, base, k)), "KeyError", tgt, "del missing key")
                     self.dict_remove(st, base, k)
                     continue
@@ -707,6 +710,7 @@ class StmtMixin:
                     raise Unsupported(f"loop-carried local {name} is None before the loop: declare its type in the sidecar")
                 hst.locals[name] = fresh(t, name)
                 self.typing_facts(hst, hst.locals[name]) if not isinstance(t, TTuple) else None
+        self._cur_loop_head = head
         self.havoc_heap_for_loop(s, body, st, hst, spec)
         self._havoc_index(s, spec, ordinal, hst)
         facts = []
@@ -844,7 +848,23 @@ class StmtMixin:
         try:
             base = self.ev(recv_expr, st.copy())
         except (Unsupported, DeadPath):
-            raise Unsupported(f"cannot resolve mutated container {ast.unparse(recv_expr)}")
+            # the receiver may be bound by the loop header itself (for k, v in ...: v.discard(x)): bind the targets on
+            # a scratch copy to learn its container type, then havoc the whole map of that type
+            base = None
+            head = getattr(self, "_cur_loop_head", None)
+            if head is not None:
+                scratch = hst.copy()
+                try:
+                    self.spec_mode += 1
+                    head(scratch)
+                    base = self.ev(recv_expr, scratch)
+                except Exception:
+                    base = None
+                finally:
+                    self.spec_mode -= 1
+            if base is None:
+                raise Unsupported(f"cannot resolve mutated container {ast.unparse(recv_expr)}")
+            stable = False
         if isinstance(base.t, TOpt):
             base = opt_get(base)
         keys = []
